@@ -131,6 +131,31 @@ var properties = map[string]*Property{
 			"string methods: Index/Slice/Len are compared over an uninterpreted model of strings (same indexing function on both sides)",
 		},
 	},
+	"C15": {
+		ID:    "C15",
+		Title: "A failed evaluation leaves earlier definitions intact",
+		Units: []Unit{
+			{Kind: "funcs", Pkg: "fast", Funcs: []string{"(*Comp).DeclFunc"}},
+		},
+		NotCovered: []string{
+			"everything but function declarations: variables, constants and types declared by an input that fails later are NOT rolled back by the code (hand-confirmed finding F12: a := 1; then `var a string = \"s\"; var b = nope` leaves a as an invalid string); a contract on Comp.Compile saying so was tried and withdrawn: with its callees uncontracted every panic exit fails, the spurious ones with the genuine one",
+			"that no code of a failing input runs (compile before run: Interp.Eval / ParseEvalPrint); type redefinition keeping earlier variables readable (xreflect.NamedOf)",
+			"method declarations and generic functions (delegated by DeclFunc to methodDecl / DeclGenericFunc)",
+		},
+	},
+	"C19": {
+		ID:    "C19",
+		Title: "Debugging is transparent and step/next/finish/continue stop where documented",
+		Units: []Unit{
+			{Kind: "funcs", Pkg: "fast", Funcs: []string{"singleStep", "(*Run).applyDebugOp"}},
+			{Kind: "funcs", Pkg: "fast/debug", Funcs: []string{"(*Debugger).cmdStep", "(*Debugger).cmdNext", "(*Debugger).cmdFinish", "(*Debugger).cmdContinue"}},
+		},
+		NotCovered: []string{
+			"transparency: that a program gives the same results under the debugger (the single-step executor loop of reExecWithFlags against the normal one): a relation between two executions",
+			"that the command table binds s, n, f, c to these four functions, and that DebugOpStep / DebugOpContinue still hold {MaxInt, nil} / {0, nil} (package variables: initial values are not modelled)",
+			"explicit breakpoints (Comp.breakpoint), Interp.debug, the debugger's own REPL",
+		},
+	},
 	"C22": {
 		ID:    "C22",
 		Title: "The uniform syntax-tree wrapper round-trips every node losslessly",
